@@ -3,9 +3,13 @@ import json, subprocess, sys, os, xml.etree.ElementTree as ET, tempfile
 base = json.load(open("/root/.vp/BASELINE.json"))
 out = tempfile.mktemp(suffix=".xml", dir="/var/tmp")
 env = dict(os.environ); env.pop("BOB_VERIF", None)
+REPO = os.environ.get("BOBV_REPO", "/repo")
+if REPO != "/repo":
+    # a scratch copy: the editable install in /venv points at /repo/pym, so put the copy first
+    env["PYTHONPATH"] = os.path.join(REPO, "pym")
 extra = sys.argv[1:]
 subprocess.run(["/venv/bin/python", "-m", "pytest", "-ra", "-q", "-p", "no:cacheprovider", "--timeout=900",
-                "--continue-on-collection-errors", "--junitxml=" + out] + extra, cwd="/repo", env=env,
+                "--continue-on-collection-errors", "--junitxml=" + out] + extra, cwd=REPO, env=env,
                stdout=subprocess.DEVNULL, stderr=subprocess.DEVNULL)
 passed = set()
 for tc in ET.parse(out).getroot().iter("testcase"):
